@@ -269,10 +269,14 @@ func (c *Chan) Close() error {
 		c.note("Close entered while Send in progress")
 	}
 	defer c.closeIn.Add(-1)
-	c.nClose.Add(1)
+	k := int(c.nClose.Add(1))
 	c.yield()
 	err := c.inner.Close()
 	c.yield()
+	if err == nil && c.fault("close", k) != "" {
+		// the transport is closed, but not without complaint (a final flush that fails)
+		return ErrInjected
+	}
 	return err
 }
 
